@@ -459,7 +459,7 @@ def linearize_segment_contents(part, start, end, state):
         # voice_notes.sort(key=lambda n: -n.duration)
         voice_notes.sort(key=lambda n: n.start.t)
 
-        n_of_staves = part.number_of_staves
+        n_of_staves = state["number_of_staves"]
 
         for n in voice_notes:
             if isinstance(n, score.GraceNote):
@@ -1093,6 +1093,9 @@ def save_musicxml(
         # write the part itself
 
         part_e = etree.SubElement(root, "part", id=part.id)
+
+        # computed once per part (the part does not cache it)
+        state["number_of_staves"] = part.number_of_staves
 
         for measure in part.iter_all(score.Measure):
             part_e.append(etree.Comment(MEASURE_SEP_COMMENT))
